@@ -591,12 +591,17 @@ namespace bloch::update {
 #endif
         }
 
-        bool hasLatest(const std::string& currentVersion, const std::string& latestVersion) {
+        enum class UpdateDecision { AlreadyLatest, Unparsable, Install };
+
+        // Install only a strictly newer release; never act on a version we cannot interpret.
+        UpdateDecision decideUpdate(const std::string& currentVersion,
+                                    const std::string& latestVersion) {
             const auto current = parseSemVer(currentVersion);
             const auto latest = parseSemVer(latestVersion);
             if (!current.valid || !latest.valid)
-                return false;
-            return compareSemVer(current, latest) >= 0;
+                return UpdateDecision::Unparsable;
+            return compareSemVer(current, latest) >= 0 ? UpdateDecision::AlreadyLatest
+                                                       : UpdateDecision::Install;
         }
 
         struct TempDirGuard {
@@ -653,7 +658,14 @@ namespace bloch::update {
                       << std::endl;
             return false;
         }
-        if (hasLatest(currentVersion, *latest)) {
+        const auto decision = decideUpdate(currentVersion, *latest);
+        if (decision == UpdateDecision::Unparsable) {
+            std::cerr << "Unable to compare the running version (" << currentVersion
+                      << ") with the latest release tag (" << *latest << "); not updating."
+                      << std::endl;
+            return false;
+        }
+        if (decision == UpdateDecision::AlreadyLatest) {
             std::cout << "You already have the latest Bloch release (" << *latest << ")."
                       << std::endl;
             return true;
